@@ -1,5 +1,4 @@
 // ---------------------------------------------------------------- U-lang: runs of an NFA view, as explicit node / label sequences
-pub type ClsF = spec_fn(CharClassID, char) -> bool;
 
 /// a --lab--> b is an edge of v (None: epsilon edge; Some(c): a class edge whose class holds for c)
 pub open spec fn v_edge(v: NfaV, cls: ClsF, a: int, lab: Option<char>, b: int) -> bool {
